@@ -216,6 +216,68 @@ class AndSplit(ast.NodeTransformer):
         return node
 
 
+class InlineStmtCalls(ast.NodeTransformer):
+    """`self._helper(a, b)` used as a statement  ->  the helper's body pasted in place
+    (parameters replaced by the argument expressions, its locals prefixed)."""
+
+    def __init__(self, repo, mi):
+        self.repo, self.mi, self.cls = repo, mi, None
+
+    def visit_ClassDef(self, node):
+        old, self.cls = self.cls, self.repo.classes.get(f"{self.mi.name}.{node.name}")
+        self.generic_visit(node)
+        self.cls = old
+        return node
+
+    def visit_Expr(self, node):
+        v = node.value
+        if not (isinstance(v, ast.Call) and isinstance(v.func, ast.Attribute)
+                and isinstance(v.func.value, ast.Name) and v.func.value.id == "self"
+                and self.cls is not None and v.func.attr.startswith("_")
+                and not v.func.attr.startswith("__")):
+            return node
+        callee = self.cls.own_method(v.func.attr)
+        if callee is None or callee.decorators() or v.keywords or any(
+                isinstance(a, ast.Starred) for a in v.args):
+            return node
+        fn = callee.node
+        a = fn.args
+        if a.vararg or a.kwarg or a.kwonlyargs or a.defaults and len(v.args) != len(a.args) - 1:
+            return node
+        params = [x.arg for x in a.args][1:]
+        if len(params) != len(v.args):
+            return node
+        if not all(isinstance(x, (ast.Name, ast.Attribute, ast.Constant)) for x in v.args):
+            return node
+        body = [st for st in fn.body if not (isinstance(st, ast.Expr) and isinstance(
+            st.value, ast.Constant) and isinstance(st.value.value, str))]
+        for st in body:
+            for x in ast.walk(st):
+                if isinstance(x, (ast.Return, ast.FunctionDef, ast.Lambda, ast.Yield,
+                                  ast.ListComp, ast.DictComp, ast.SetComp, ast.GeneratorExp)):
+                    return node
+        import copy as _copy
+        body = _copy.deepcopy(body)
+        mapping = dict(zip(params, v.args))
+        locals_ = set()
+        for st in body:
+            for x in ast.walk(st):
+                if isinstance(x, ast.Name) and isinstance(x.ctx, ast.Store):
+                    locals_.add(x.id)
+        prefix = f"_inl{v.func.attr}_"
+
+        class Sub(ast.NodeTransformer):
+            def visit_Name(s, n):
+                if n.id in mapping and isinstance(n.ctx, ast.Load) and n.id not in locals_:
+                    return _copy.deepcopy(mapping[n.id])
+                if n.id in locals_:
+                    return ast.Name(id=prefix + n.id, ctx=n.ctx)
+                return n
+        if any(p in locals_ for p in params):
+            return node
+        return [Sub().visit(st) for st in body] or [ast.Pass()]
+
+
 class StripAnn(ast.NodeTransformer):
     """Remove parameter / return annotations of functions (not class-level fields)."""
 
@@ -232,7 +294,7 @@ class StripAnn(ast.NodeTransformer):
         return node
 
 
-TRANSFORMS = ["strip_ann", "ret_tmp", "if_swap", "cmp_flip", "rename", "kwargs", "assign_tmp",
+TRANSFORMS = ["inline_calls", "strip_ann", "ret_tmp", "if_swap", "cmp_flip", "rename", "kwargs", "assign_tmp",
               "unpack_index", "and_split"]
 
 
@@ -242,7 +304,8 @@ def apply(name, repo, root):
         t = {"ret_tmp": RetTmp, "if_swap": IfSwap, "cmp_flip": CmpFlip, "rename": Rename,
              "assign_tmp": AssignTmp, "unpack_index": UnpackIndex,
              "and_split": AndSplit, "strip_ann": StripAnn}.get(name)
-        tree = (Kwargs(repo, mi) if name == "kwargs" else t()).visit(tree)
+        tree = (Kwargs(repo, mi) if name == "kwargs" else InlineStmtCalls(repo, mi)
+                if name == "inline_calls" else t()).visit(tree)
         ast.fix_missing_locations(tree)
         out = ast.unparse(tree)
         compile(out, mi.relpath, "exec")
